@@ -841,6 +841,11 @@ fn state_key(o: &Obs) -> u64 {
         })
         .collect();
     let s = format!("{disk:?}|{:?}|{:?}|{:?}", o.disk.dirs, o.tree, o.patterns);
+    if let Ok(path) = std::env::var("C25_DUMP_STATES") {
+        use std::io::Write as _;
+        let mut f = std::fs::OpenOptions::new().create(true).append(true).open(path).unwrap();
+        writeln!(f, "{s}").unwrap();
+    }
     fnv(s.as_bytes())
 }
 
